@@ -1,6 +1,7 @@
 import FparserModel.Proofs.BlockStream
 import FparserModel.Proofs.BlockClosed
 import FparserModel.Proofs.BlockOutcome
+import FparserModel.Proofs.BlockFuel
 
 /-!
 # M-D — property theorems (every class table, every oracle, every fuel, every state)
@@ -234,6 +235,19 @@ theorem internalSyntax_only_from_leaves (env : Env) (fuel : Nat) (c : Cls) (st :
     (Prod.ext h (Prod.ext rfl rfl))
   exact absurd (this rfl).1 (by simp)
 
+/-! ## g. fuel -/
+
+/-- more fuel never changes a completed result: if the run with fuel `n` did not end in
+`raise outOfFuel`, every larger fuel gives the same outcome and the same final state
+(stream, scope forest, parse cache, event log).
+`eval_total` ("some fuel always suffices") is NOT a theorem for every class table: a table
+with a block that has no start class and lists itself as a sub-class loops forever, as the
+Python would (RecursionError). -/
+theorem eval_fuel_mono (env : Env) (n m : Nat) (hnm : n ≤ m) (c : Cls) (st : St)
+    (h : (run env n c st).1 ≠ .raise .outOfFuel) : run env m c st = run env n c st := by
+  unfold run fresh at h ⊢
+  rw [eval_mono env hnm c [] st h]
+
 /-! ## witnesses on a concrete small table -/
 
 namespace W
@@ -437,6 +451,13 @@ example : outKind (res {} (fun _ _ => ans .none) 5 1).1 = 1 ∧
     (res {} (fun _ _ => ans .none) 1 1).2.stream.all.map (·.id) = [0] ∧
     (res {} (fun _ _ => ans .none) 1 1).2.stream.pulled = 1 := by
   decide
+
+open W in
+/-- an instance of the hypothesis of `eval_fuel_mono`: fuel 12 completes -/
+example : (res {} orcDrop 0 2).1 ≠ .raise .outOfFuel := by
+  intro h
+  have : outKind (res {} orcDrop 0 2).1 = 7 := by rw [h]; rfl
+  revert this; decide
 
 open W in
 /-- an instance of `Unmatched`: item 1 of `orcExit`'s world restricted to class 3 … is matched
